@@ -3,8 +3,8 @@ from .c17 import _TRUSTED
 SPEC = {
     "id": "C02",
     "harness": "c02",
-    "n": {"quick": 800, "thorough": 20000},
-    "coq_modules": ["Server.Model", "Server.Spec", "Server.Witness", "Server.Release", "Server.Queries", "Server.Iface", "Server.Check"],
+    "n": {"quick": 660, "thorough": 20000},
+    "coq_modules": ["Server.Model", "Server.Spec", "Server.Witness", "Server.Release", "Server.Queries", "Server.Iface", "Server.Check", "Server.Product", "Server.ProofsProduct"],
     "search": {"n": 2000, "timeout": 600},
     "components": {"1": "an observed event is not an enabled step of the model", "2": "`Previous` or `initial` (as told to StartExecution / the middlewares) of a computation differs from the model's",
                    "3": "socket envelopes differ", "4": "SubscriptionLogger calls differ", "5": "merge.ts client state differs from the model's fold",
@@ -12,18 +12,20 @@ SPEC = {
                    "9": "what reactive/rerunner.go reported for a rerunner (publish / failed / retry / stop.mark with their flags) differs from what the history implies (Server/Iface.v)"},
     "corr_name": "Server.Model + DiffMerge.Model vs graphql/server.go + diff.Diff + client/src/merge.ts: the model must predict every update envelope and the folded client state of every recorded history",
     "trusted_base": _TRUSTED + [
-        "convergence is proved relative to the C03 round-trip facts (section hypotheses of Server/Proofs.v, to be instantiated with DiffMerge/Proofs.v); numbers are integers below 2^53",
+        "convergence is proved inside a Section whose hypothesis is the C03 round trip and instantiated with C03's proof (roundtrip_js_all); numbers are integers below 2^53",
+        "live_convergence: the result of Execute is a function (w_render) of the (slot, version) reads the computation recorded; a query's reads are a fixed script of the reactive model (slots, caches, goroutines) - data-dependent read sets are not represented in the model, they are exercised on the implementation (keyed lists, memoised Expensive fields)",
     ],
     "assumptions": [
         "results of computations are well-formed JSON (unique object keys, scalar __key)",
         "convergence and first-message-full are stated for histories in which no socket write has failed (st_wfail = false: the client is still there)",
         "a wait of the harness that times out (20 s) is reported only if it times out again when the case is replayed once on a fresh connection (counted in the histogram)",
-        "that the last run read the final data is C04's quiescence theorem; here it is checked on the implementation (version stamps on every resolver read)",
+        "that the last run read the final data is C04's quiescence theorem, composed into live_convergence through the product Server/Product.v; on the implementation it is also checked directly (version stamps on every resolver read, fresh Execute at every quiescent point)",
+        "a quiescent point of a history with memoised sub-results is recognised through the hooks of reactive/graph.go (no invalidate() call announced by a strobe / invalidate snapshot is outstanding, the published computation is valid) and the version stamps; if a stale cache entry keeps the stamps from ever matching, the point is taken after two seconds of silence and what it shows is reported only if the case shows it again when played a second time",
     ],
     "harness_timeout": {"quick": 600, "thorough": 3000},
     "manifest": {
-        "text": "Coq theorems (Props/C02.v) over the connection model: the first message of every accepted subscription is a full update, every update carries the id of the subscription that computed it, nothing is written for a subscription after its unsubscribe was processed, and - by induction over the successful runs of one subscription, using the C03 round trip - folding the sent deltas with merge.ts yields the stripped result of the last run. The model is tied to the code by trace conformance on every run; the oracle folds the real envelopes with the repository's merge.ts and merge.Merge and compares with a fresh Execute at every quiescent point.",
-        "note": "Trusted: Coq kernel + vm_compute; the hand-written models; the Go harness, hook call sites and node. The convergence theorem takes the diff/merge round trip as a section hypothesis (C03). That the last run saw the final data is measured (version stamps), not proved here (C04).",
+        "text": "Coq theorems (Props/C02.v) over the connection model: the first message of every accepted subscription is a full update, every update carries the id of the subscription that computed it, nothing is written for a subscription after its unsubscribe was processed, and - by induction over the successful runs of one subscription, using the C03 round trip - folding the sent deltas with merge.ts yields the stripped result of the last run. End to end (live_convergence, over the product of the connection model with Reactive/Rerunner.v, C04's published_output_is_current instantiated through a proved coherence invariant - previous is always the result of the published computation): for every pool of queries, every history of client messages, data changes and schedules of the reactive package's goroutines, when the reactive package has come to rest a live, uncancelled subscription has published a computation all of whose reads are current and the client holds its stripped result - the result of the query on the final data. The model is tied to the code by trace conformance on every run; the oracle folds the real envelopes with the repository's merge.ts and merge.Merge and compares with a fresh Execute at every quiescent point.",
+        "note": "Trusted: Coq kernel + vm_compute; the hand-written models; the Go harness, hook call sites and node. The convergence theorem is instantiated with C03's round trip and composed with C04's quiescence theorem in live_convergence; Execute's result is modelled as a function of the recorded reads.",
         "technique": "Coq proof over executable model + trace-conformance check (vm_compute) + client-model oracle (merge.ts under node, merge.Merge) against fresh Execute at quiescence",
     },
 }
